@@ -26,7 +26,8 @@ RULE = ('histories: a device with 2-3 objects drawn from the 63 registered objec
         'foreign constructed value, wrong element type, wrong fixed length), ReadPropertyMultiple (specific references, '
         'all/required/optional, unknown objects), array index classes none/0/1..n/n+1/huge, priorities none/1..16, unknown '
         'objects and properties, wildcard device id.  One correspondence case = one history (replies of every request + final '
-        '_values of every object), plus two fixed scenarios (array of bit strings; index 0 of arrays of strings/enumerations through RPM).  '
+        '_values of every object); 10 % of the steps are life-cycle events (an object added to / deleted from the running device, '
+        'objectList of the local device being one of its modelled properties); plus two fixed scenarios (array of bit strings; index 0 of arrays of strings/enumerations through RPM).  '
         'direct only: 120 (quick) histories on the commandable *CmdObject classes of local/object.py: commands and relinquishes at '
         'priorities none/1..16, wrong-typed commands, each followed by reads of presentValue, priorityArray (whole, [0], [p], [17]) and '
         'relinquishDefault against a priority-array oracle; and one device hosting, for ten object types, four objects of equal '
@@ -90,8 +91,11 @@ def abs_val(dt, v):
         return ('none',)
     if issubclass(dt, C.Array):
         if isinstance(v, C.Array):
-            if not (isinstance(v.value, list) and len(v.value) >= 1 and isinstance(v.value[0], int)):
-                return ('x',)           # not an ArrayOf state at all: no model value corresponds
+            if not (isinstance(v.value, list) and len(v.value) >= 1 and isinstance(v.value[0], int)
+                    and v.value[0] == len(v.value) - 1):
+                # not an ArrayOf state (or one whose length slot is not the number of elements, which no sequence of
+                # model steps reaches: C15_array_invariant): no model value corresponds, the case disagrees
+                return ('x',)
             return ('arr', v.value[0], [abs_elem(dt.subtype, x) for x in v.value[1:]])
         if isinstance(v, list):
             return ('pylist', [abs_elem(dt.subtype, x) for x in v])
@@ -209,12 +213,13 @@ class Bench:
             out.append((oid_num(o.objectIdentifier), o, [(p, abs_val(p.datatype, o._values.get(pid))) for pid, p in o._properties.items()]))
         return out
 
+    def q_object(self, o, props):
+        tname = 'T_localdev' if o is self.dev.localDevice else tables()[type(o)]
+        vs = ['(%d, %s)' % (i, q_val(v)) for i, (p, v) in enumerate(props) if v[0] != 'none']
+        return '(mk_object %s [%s])' % (tname, ';'.join(vs))
+
     def q_device(self):
-        objs = []
-        for num, o, props in self.table():
-            tname = 'T_localdev' if o is self.dev.localDevice else tables()[type(o)]
-            vs = ['(%d, %s)' % (i, q_val(v)) for i, (p, v) in enumerate(props) if v[0] != 'none']
-            objs.append('(%d, mk_object %s [%s])' % (num, tname, ';'.join(vs)))
+        objs = ['(%d, %s)' % (num, self.q_object(o, props)) for num, o, props in self.table()]
         return '(mkDev %d [%s])' % (oid_num(self.dev.localDevice.objectIdentifier), ';\n'.join(objs))
 
     def c_device(self):
@@ -363,8 +368,9 @@ def pick_index(rng, obj, prop):
 def pick_target(rng, bench):
     """(object identifier tuple, object or None)"""
     r = rng.random()
-    if r < 0.07:
-        t = rng.choice(['analogValue', 'binaryInput', 'schedule', 'device'])
+    if r < 0.09:
+        # unknown instance of a known type / a type number outside the enumeration: reserved 60..127, vendor 128..1023
+        t = rng.choice(['analogValue', 'binaryInput', 'schedule', 'device', 63, 100, 127, 128, 555, 1023])
         oid = (t, rng.choice([77, 4000, 4194302]))
         return oid, bench.find(oid)
     if r < 0.15:
@@ -735,7 +741,7 @@ def history_case(rng, nops=None, scenario=None):
     qdev = bn.q_device()
     oracle0 = dict(ORACLE)
     qops, expected, descs = [], [], []
-    acks = refusals = 0
+    acks = refusals = added = 0
     for _ in range(nops or rng.randint(10, 14)):
         if script is not None:
             try:
@@ -743,18 +749,38 @@ def history_case(rng, nops=None, scenario=None):
             except StopIteration:
                 break
         else:
+            r = rng.random()
+            if r < 0.05 or (r < 0.10 and len(bn.objects) <= 1):
+                # life cycle: an object is added to the running device (Application.add_object)
+                added += 1
+                o = build_object(rng, rng.choice(sorted(classes())), 60 + added, mutable=rng.random() < 0.8, fill=0.15)
+                props = [(p, abs_val(p.datatype, o._values.get(pid))) for pid, p in o._properties.items()]
+                qops.append('(EAdd %d %s %s)' % (oid_num(o.objectIdentifier), bn.q_object(o, props),
+                                                 q_elem(abs_elem(B()['P'].ObjectIdentifier, o.objectIdentifier))))
+                bn.add(o)
+                expected += [6]
+                descs.append({'op': 'add_object', 'oid': list(o.objectIdentifier), 'reply': [6]})
+                continue
+            if r < 0.10:
+                # ... or deleted from it (Application.delete_object)
+                o = bn.objects.pop(rng.randrange(len(bn.objects)))
+                qops.append('(EDel %d %s)' % (oid_num(o.objectIdentifier), q_elem(abs_elem(B()['P'].ObjectIdentifier, o.objectIdentifier))))
+                bn.dev.delete_object(o)
+                expected += [6]
+                descs.append({'op': 'delete_object', 'oid': list(o.objectIdentifier), 'reply': [6]})
+                continue
             req, q, d = gen_op(rng, bn)
         io, errs = bn.exchange(req)
         rep = c_reply(bn, io)
         acks += (rep == [0])
         refusals += (rep[0] in (2, 3, 4))
         expected += rep
-        qops.append(q)
+        qops.append('(EReq %s)' % q)
         d['reply'] = rep[:12]
         descs.append(d)
     full = bn.c_device()
     expected += [-7, digest(full)]
-    coq = 'run %s\n [%s]' % (qdev, ';\n  '.join(qops))
+    coq = 'run_ev %s\n [%s]' % (qdev, ';\n  '.join(qops))
     types = [o.objectIdentifier[0] for o in bn.objects]
     kind = ('history+implementation-cast' if ORACLE['implementation'] > oracle0['implementation'] else
             'history+codec-cast' if ORACLE['codec'] > oracle0['codec'] else 'history')
@@ -1461,6 +1487,117 @@ def same_type_pairs_direct(rng, failures, stats):
     bn.clear()
 
 
+def unknown_type_direct(failures, stats):
+    """objects that are not there, including identifiers whose type number is not in the ObjectType enumeration (reserved
+    60..127, vendor 128..1023, the maximum 1023): ReadProperty / WriteProperty answer object/unknown-object, RPM embeds that
+    error for the specification and still answers the known objects"""
+    e = B()
+    P, A = e['P'], e['A']
+    bn = bench()
+    bn.clear()
+    cls, M = classes()['analogValue']
+    o = M(objectIdentifier=('analogValue', 40), objectName='av-40', presentValue=1.5, description='x')
+    bn.add(o)
+    known = o.objectIdentifier
+    unk = [(63, 1), (100, 7), (127, 4194302), (128, 1), (555, 9), (1023, 3), (1023, 4194302), ('analogValue', 41), ('loop', 1)]
+    for u in unk:
+        for req, what in ((A.ReadPropertyRequest(objectIdentifier=u, propertyIdentifier='presentValue'), 'read'),
+                          (A.WritePropertyRequest(objectIdentifier=u, propertyIdentifier='presentValue', propertyValue=make_any([P.Real(1.0)])), 'write')):
+            io, _ = bn.exchange(req)
+            rep = c_reply(bn, io)
+            stats['evaluations'] += 1
+            if rep != [2, 1, 31]:
+                failures.append({'kind': 'unknown-object-wrong-reply', 'scenario': 'unknown-type', 'op': {'op': what, 'oid': list(u), 'reply': rep[:6]}})
+        refs = [('presentValue', None), ('all', None), ('description', 1)]
+        for specs in ([(u, refs)], [(known, refs), (u, refs)], [(u, refs), (known, refs), (('device', 4194303), [('objectName', None)])],
+                      [(u, [('required', None)]), (unk[(unk.index(u) + 1) % len(unk)], [('objectName', None)]), (known, [('presentValue', None)])]):
+            rpm_index0_one(bn, specs, failures, stats, scenario='unknown-type')
+    bn.clear()
+
+
+def device_lifecycle_direct(rng, failures, stats):
+    """objects added to and deleted from the running device; after every step the local device's objectList is read whole,
+    [0], [1..n], [n+1] through ReadProperty and ReadPropertyMultiple: the length element is the number of elements is the
+    number of hosted objects (+ the device itself), element i is the i-th of the whole read, n+1 is an invalid index"""
+    e = B()
+    P, C, A = e['P'], e['C'], e['A']
+    bn = bench()
+    bn.clear()
+    ld = bn.dev.localDevice
+    devoid = ld.objectIdentifier
+    dt = ld._properties['objectList'].datatype
+    types = sorted(classes())
+    counter = [50]
+
+    def fail(kind, step, **kw):
+        failures.append(dict({'kind': kind, 'scenario': 'device-life-cycle', 'step': step,
+                              'hosted': [list(o.objectIdentifier) for o in bn.objects]}, **kw))
+
+    def read(idx):
+        io, rep = rp(bn, devoid, 'objectList', idx)
+        stats['evaluations'] += 1
+        r = io.ioResponse
+        if isinstance(r, A.ReadPropertyACK):
+            try:
+                if idx is None:
+                    return 'ok', list(r.propertyValue.cast_out(dt))
+                return 'ok', r.propertyValue.cast_out(P.Unsigned if idx == 0 else P.ObjectIdentifier)
+            except Exception as ex:
+                return 'undecodable', repr(ex)[:80]
+        return 'refused', rep[:3]
+
+    def verify(step):
+        expect = [devoid] + [o.objectIdentifier for o in bn.objects]
+        k, whole = read(None)
+        if k != 'ok':
+            fail('object-list-unreadable', step, got=str(whole))
+            return False
+        if sorted(map(str, whole)) != sorted(map(str, expect)):
+            fail('object-list-not-the-hosted-objects', step, got=[list(x) for x in whole])
+            return False
+        n = len(whole)
+        k0, r0 = read(0)
+        if k0 != 'ok' or r0 != n:
+            fail('array-length-element-wrong', step, length_element=str(r0), elements=n)
+            return False
+        for i in range(1, n + 1):
+            ki, ri = read(i)
+            if ki != 'ok' or tuple(ri) != tuple(whole[i - 1]):
+                fail('array-element-wrong', step, index=i, got=str(ri), elements=n)
+                return False
+        kn, rn = read(n + 1)
+        if (kn, rn) != ('refused', [2, 2, 42]):
+            fail('bad-index-wrong-reply', step, index=n + 1, got=str(rn))
+            return False
+        before = len(failures)
+        for target in (devoid, ('device', 4194303)):
+            rpm_index0_one(bn, [(target, [('objectList', 0), ('objectList', None), ('objectList', n), ('objectList', n + 1), ('objectList', 1)])],
+                           failures, stats, scenario='device-life-cycle')
+        return len(failures) == before
+
+    def add():
+        counter[0] += 1
+        bn.add(build_object(rng, rng.choice(types), counter[0], mutable=rng.random() < 0.5, fill=0.1))
+
+    def delete(pos):
+        o = bn.objects.pop(pos)
+        bn.dev.delete_object(o)
+    if not verify('start'):
+        bn.clear(); return
+    script = ['add', 'add', 'add', 'del-middle', 'del-first', 'add', 'add', 'del-last', 'add', 'del-first', 'del-last', 'del-first', 'add', 'del-last']
+    script += [rng.choice(['add', 'del-first', 'del-middle', 'del-last']) for _ in range(10)]
+    for step, what in enumerate(script):
+        if what == 'add':
+            add()
+        elif bn.objects:
+            delete({'del-first': 0, 'del-last': len(bn.objects) - 1, 'del-middle': len(bn.objects) // 2}[what])
+        else:
+            continue
+        if not verify('%d:%s' % (step, what)):
+            break
+    bn.clear()
+
+
 def direct(rng, tier, focus=()):
     import collections
     B(); classes()
@@ -1475,6 +1612,9 @@ def direct(rng, tier, focus=()):
     bitstring_array_direct(failures, stats)
     rpm_index0_direct(failures, stats)
     same_type_pairs_direct(rng, failures, stats)
+    unknown_type_direct(failures, stats)
+    for _ in range(8 if tier == 'thorough' else 2):
+        device_lifecycle_direct(rng, failures, stats)
     cseeds = [rng.getrandbits(48) for _ in range(600 if tier == 'thorough' else 120)]
     for hs in cseeds:
         run_cmd_history(hs, failures, stats)
